@@ -119,6 +119,7 @@ def prog_constants(p, j=1, max_hist=4, max_cmds=3, unlocked_bug=False, selfdep_p
     d['MaxCmds'] = str(max_cmds)
     d['UnlockedBug'] = 'TRUE' if unlocked_bug else 'FALSE'
     d['SelfDepPanics'] = 'TRUE' if selfdep_panics else 'FALSE'
+    d['KeepCsum'] = 'TRUE' if p.get('keep_csum', False) else 'FALSE'
     d['OverrideStale'] = 'TRUE' if p.get('override_stale', False) else 'FALSE'
     d['NullStampPanics'] = 'TRUE' if p.get('null_stamp_panics', False) else 'FALSE'
     d['MaxCrash'] = str(p.get('max_crash', max_crash))
@@ -413,6 +414,21 @@ def override_rm_q():
         'cmds': [('ifchange', ['h'], False), ('targets', [], False), ('sources', [], False)],
         'user': ['g'], 'rm': ['g'], 'doedits': [],
         'bounds': (5, 3), 'sample_n': 400,
+    }
+
+
+def stamp_override():
+    """a checksummed target edited by hand (its dependent is rebuilt from the hand-made content), then removed and regenerated
+    with the content it had before: the checksum recorded before the hand edit must not make that look like 'unchanged'"""
+    return {
+        'name': 'stamp_override',
+        'plain': ['s', 'mid', 'top'],
+        'rules': {'mid.do': [{'mid': [ifchange('s'), out('stdout', 's'), stamp()]}],
+                  'top.do': [{'top': [ifchange('mid'), out('stdout', 'mid')]}]},
+        'init': ['s', 'mid.do', 'top.do'],
+        'cmds': [('ifchange', ['top'], False)],
+        'user': ['mid'], 'rm': ['mid'], 'doedits': [],
+        'bounds': (5, 3),
     }
 
 
@@ -949,7 +965,7 @@ def crash_family(window=False, stamp_window=False):
     return out_
 
 
-FAMILY_DEEP = [override_rm_q, stamp_diamond, stamp_chain2, override3, subdirs_cwd, alias_prog, fail_kinds, ifcreate_link, symlink_prog, symlink_stamped, nodir_prog, always2, fail_diamond, override2, stamp_toggle, stamped_deep, ifcreate_deep, do_recreate, subdirs, fan_shared, fail_memo]
+FAMILY_DEEP = [stamp_override, override_rm_q, stamp_diamond, stamp_chain2, override3, subdirs_cwd, alias_prog, fail_kinds, ifcreate_link, symlink_prog, symlink_stamped, nodir_prog, always2, fail_diamond, override2, stamp_toggle, stamped_deep, ifcreate_deep, do_recreate, subdirs, fan_shared, fail_memo]
 
 
 def deep_programs():
